@@ -7,12 +7,7 @@
 //! exit 0 = held on everything explored; 1 = violation (a `VIOLATION property=.. replay=..` line
 //! is printed); 2 = harness trouble (never reported as a violation).
 
-mod api;
-mod engine;
-mod gen;
-mod oracle;
-mod props;
-mod refapi;
+use a5verif::{engine, props};
 
 use engine::{Report, Tier};
 use serde_json::{json, Value};
@@ -101,6 +96,68 @@ fn write_replay(rep: &Report) -> PathBuf {
         std::process::exit(2);
     }
     path
+}
+
+fn emit_violation(property: &'static str, section: &str, case: Value, message: String) -> i32 {
+    let mut rep = Report::new(property, Tier::Thorough, parse_seed(), "");
+    rep.violation = Some(engine::Violation { section: section.to_string(), case, message: message.clone() });
+    let path = write_replay(&rep);
+    println!("violation found by the libFuzzer campaign in section {}: {}", section, message);
+    println!("VIOLATION property={} replay={}", property, path.display());
+    1
+}
+
+fn fuzz_replay(id: &str, target: &str, data: &[u8]) -> i32 {
+    use a5verif::props::{c05, c08, c10, c14, fuzzdec, sets};
+    let mut st = engine::Stats::default();
+    match target {
+        "hex" => {
+            let s = fuzzdec::decode_string(data);
+            if let Err(m) = engine::guarded(|| c05::hex_string_check(&s, &mut st)) {
+                return emit_violation("C05", "hex-strings", json!(s), m);
+            }
+            if let Ok(v) = a5::hex_to_u64(&s) {
+                if let Err(m) = engine::guarded(|| c05::hex_value_check(v, &mut st)) {
+                    return emit_violation("C05", "hex-values", json!(v), m);
+                }
+            }
+        }
+        "compact" => {
+            if let Some(script) = fuzzdec::decode_script(data) {
+                if id != "C10" {
+                    if let Err(m) = engine::guarded(|| c08::check_script(&script, &mut st)) {
+                        return emit_violation("C08", "scripts", sets::script_json(&script), m);
+                    }
+                }
+                if id != "C08" {
+                    let b = sets::build(&script);
+                    if let Err(m) = engine::guarded(|| c10::check_antichain(&b.antichain, "fuzz").map(|_| ())) {
+                        let cells: Vec<Value> = b.antichain.iter().map(a5verif::gen::cell_json).collect();
+                        return emit_violation("C10", "fixed-shapes", json!({"shape": "found by libFuzzer", "cells": cells}), m);
+                    }
+                }
+            }
+        }
+        "api_total" => {
+            if let Some(call) = fuzzdec::decode_call(data) {
+                // through the limited child of both profiles, exactly like a C14 replay
+                for profile in ["release", "checked"] {
+                    let case = json!({"profile": profile, "call": c14::call_json(&call)});
+                    match c14::replay("calls", &case) {
+                        Some(Err(m)) => return emit_violation("C14", &format!("calls-{}", profile), case, m),
+                        Some(Ok(())) => {}
+                        None => {
+                            eprintln!("harness: cannot replay the fuzz artifact in profile {}", profile);
+                            return 2;
+                        }
+                    }
+                }
+            }
+        }
+        _ => return 2,
+    }
+    eprintln!("harness: the libFuzzer artifact does not reproduce in the plain binary (inconclusive, exit 2)");
+    2
 }
 
 fn usage() -> ! {
@@ -222,6 +279,54 @@ fn main() {
                 std::process::exit(2);
             }
         },
+        "fuzz-seeds" => {
+            // a5verif fuzz-seeds <dir>: a small deterministic starting corpus (random bytes from VERIF_SEED)
+            if args.len() < 3 {
+                usage();
+            }
+            let _ = std::fs::create_dir_all(&args[2]);
+            let mut x = engine::mix_seed(parse_seed(), "fuzz-seeds", 0) | 1;
+            for i in 0..64 {
+                let len = 16 + (i * 13) % 400;
+                let mut v = Vec::with_capacity(len);
+                for _ in 0..len {
+                    x = x.wrapping_mul(6364136223846793005).wrapping_add(1442695040888963407);
+                    v.push((x >> 33) as u8);
+                }
+                let _ = std::fs::write(format!("{}/seed-{:02}", args[2], i), v);
+            }
+            std::process::exit(0);
+        }
+        "fuzz-replay" => {
+            // a5verif fuzz-replay <ID> <target> <artifact>: decode a libFuzzer artifact with the same decoder
+            // as the target, re-run the property's check in the plain binary and emit a JSON replay file
+            if args.len() < 5 {
+                usage();
+            }
+            let data = std::fs::read(&args[4]).unwrap_or_default();
+            std::process::exit(fuzz_replay(&args[2], &args[3], &data));
+        }
+        "fuzz-note" => {
+            // a5verif fuzz-note <ID> <json>: record a finished libFuzzer campaign in the evidence file
+            if args.len() < 4 {
+                usage();
+            }
+            let path = verif_root().join("evidence").join(format!("{}.json", args[2]));
+            let mut ev: Value = match std::fs::read_to_string(&path).ok().and_then(|t| serde_json::from_str(&t).ok()) {
+                Some(v) => v,
+                None => std::process::exit(2),
+            };
+            let note: Value = serde_json::from_str(&args[3]).unwrap_or(Value::Null);
+            let execs = note["executions"].as_u64().unwrap_or(0);
+            if let Some(e) = ev["coverage"]["evaluations"].as_u64() {
+                ev["coverage"]["evaluations"] = json!(e + execs);
+            }
+            ev["coverage"]["libfuzzer_campaign"] = note;
+            if std::fs::write(&path, serde_json::to_string_pretty(&ev).unwrap()).is_err() {
+                std::process::exit(2);
+            }
+            std::process::exit(0);
+        }
         "child" => {
             // helper sub-processes (C13 fresh-process races, C14 limited child)
             std::process::exit(props::child(&args[2..]));
